@@ -86,14 +86,22 @@ def check(F, rep):
     body = max(rs, key=lambda g: len(g.blocks))
     rep.fn(body)
     em = [(b, t) for b, t in body.calls() if call_matches(t, r"AddressLookupStream::empty$")]
-    ie = [(b, t) for b, t in body.calls() if call_matches(t, r"Vec::is_empty$|slice::is_empty$|::is_empty$")]
+    LOCKS = ("core::result::Result::expect", "core::result::Result::unwrap", "std::sync::poison::rwlock::RwLock::read", "std::sync::poison::rwlock::RwLock::write",
+             "std::sync::poison::mutex::Mutex::lock", "core::result::Result::unwrap_or_else")
+
+    def is_services(o):
+        """the operand is (a view of) the configured service list `self.services`, not a derived collection"""
+        l = arg_ref_target(body, o)
+        cs = copy_sources(body, l, transparent=LOCKS) if l is not None else set()
+        return bool(cs) and all(x[0] in ("arg", "place") and tuple(x[2])[-1:] == ("services",) for x in cs)
+    ie = [(b, t) for b, t in body.calls() if call_matches(t, r"Vec::is_empty$|slice::is_empty$|::is_empty$") and is_services(t["args"][0])]
     tests = [call_result_tests(body, b, family="bool")[0] for b, t in ie]
     # `len() == 0` / `len() < 1` ... : truth of the comparison <=> empty
     for cb, s_, ts in cmp_tests(body):
         for p_, q_, flip in ((s_["rv"]["a"], s_["rv"]["b"], False), (s_["rv"]["b"], s_["rv"]["a"], True)):
             k = const_int(F, q_)
             dc = def_call(body, op_base(p_)) if op_base(p_) is not None else None
-            if k is None or dc is None or not call_matches(dc[1], r"(Vec|slice|VecDeque)::.*len$|::len$"):
+            if k is None or dc is None or not call_matches(dc[1], r"(Vec|slice|VecDeque)::.*len$|::len$") or not is_services(dc[1]["args"][0]):
                 continue
             op = s_["rv"]["op"]
             op = {"Lt": "Gt", "Gt": "Lt", "Le": "Ge", "Ge": "Le"}.get(op, op) if flip else op
@@ -102,6 +110,7 @@ def check(F, rep):
             elif (op, k) in (("Ne", 0), ("Gt", 0), ("Ge", 1)):
                 tests.append([Test(x.bb, x.failure, x.success, x.level, x.family, not x.neg, x.local) for x in ts])
     ok = len(em) == 1 and len(tests) >= 1
+    nw = [(b, t) for b, t in body.calls() if call_matches(t, r"AddressLookupStream::new$")]
     if ok:
-        ok = any(requires(body, em[0][0], ts) for ts in tests)
-    rep.ob("resolve", ok, site(body), "resolve() returns AddressLookupStream::empty() exactly under services.is_empty()", AL + "AddressLookupServices::resolve|empty-iff-no-services")
+        ok = any(requires(body, em[0][0], ts) and bool(nw) and all(requires_failure(body, b, ts) for b, t in nw) for ts in tests)
+    rep.ob("resolve", ok, site(body), "resolve() returns AddressLookupStream::empty() exactly when the configured service list itself (self.services, not a derived collection such as the streams the services returned) is empty, and the merged stream otherwise (%d emptiness tests of the service list)" % len(tests), AL + "AddressLookupServices::resolve|empty-iff-no-services")
